@@ -281,6 +281,21 @@ def run(check, repo: Repo) -> None:
             check.decide(not bad_, "C18-R2", f"_set_intensities_com[arm={arm_label}]: `{mp}` enters as a multiplicative weight (never thresholded or used as an index)", "", dmod.line(stmts[0]),
                          fail_detail=f"{bad_}: a fractional-weight mask is treated as binary in this arm — the centre of mass is no longer the mask-weighted mean and the vectorised and looped "
                                      f"paths disagree", definite=True)   # a positively identified use kind (comparison / index), not an idiom
+    # the surface fit used by the dataset model (ptycho_utils.fit_origin): the coordinate grids must have the layout of the measured origin maps —
+    # the row grid varies along axis 0 and runs over shape[0].  np.indices is 'ij' by definition; np.meshgrid defaults to 'xy' (transposed).
+    PU_ = "quantem.diffractive_imaging.ptycho_utils"
+    fmod_, ffn_ = repo.func(f"{PU_}:fit_origin")
+    check.analysed(f"{PU_}:fit_origin")
+    kf = KAT(ffn_, index_axes={"qr0_meas": {0: ROW, 1: COL}, "qc0_meas": {0: ROW, 1: COL}}, image_like=("qr0_meas", "qc0_meas")).run()
+    for n_, m_ in kf.clashes:
+        check.violated("C18-R5", f"fit_origin: axis clash `{unparse(n_)[:60]}`", m_ + " — on a non-square scan the fitted surface is evaluated on the transposed grid", fmod_.line(n_), definite=True)
+    gr_, gc_ = kf.env.get("r"), kf.env.get("c")
+    if not (isinstance(gr_, Comp) and isinstance(gc_, Comp)):
+        if not kf.clashes:
+            raise AnalysisError(f"fit_origin: kinds of the coordinate grids r / c not derivable ({gr_}, {gc_})")
+    else:
+        check.decide((gr_.axis, gr_.vary, gc_.axis, gc_.vary) == (ROW, -2, COL, -1), "C18-R5", "fit_origin: the row grid varies along axis 0 over shape[0], the column grid along axis 1 over shape[1]",
+                     f"{gr_} {gc_}", fmod_.line(ffn_), definite=True, fail_detail=f"r is {gr_}, c is {gc_}: the grids are transposed with respect to the measured origin maps")
     arm_infos = {}
     for arm_label, stmts in (("vectorised", vec), ("looped", lop)):
         inner = stmts
@@ -491,3 +506,5 @@ MANIFEST = {
     "technique": "kinded-axis abstract interpretation (axis/extent/pair kinds) + sibling-arm agreement (AST)",
 }
 MANIFEST["text"] += ' Also: numerator and normalising total read the same version of the weights (no rebinding in between); every normalised coordinate has passed a periodic wrap; inferred scan positions are laid out (scan axis 0, scan axis 1) like the measured origins.'
+MANIFEST["text"] += ' Thresholding or indexing with the detector mask is a positively identified use kind and is reported as definite.'
+MANIFEST["text"] += " R5 also: ptycho_utils.fit_origin's coordinate grids are kinded (KAT; np.indices is 'ij', np.meshgrid defaults to 'xy'): the row grid varies along axis 0 over shape[0]."
